@@ -5,9 +5,9 @@ EXTENDS PsetTx, Json, IOUtils, FiniteSetsExt
 Tier == IOEnv.GEN_TIER
 
 BaseSet == IF Tier = "quick"
-           THEN FamIn({0, 253}, {{}, {"arp", "sw"}, {"krp", "pw"}, {"arp", "krp", "sw", "pw"}}) \cup FamOut({22}, OutWitMasks) \cup FamCounts
+           THEN FamIn({0, 253}, {{}, {"arp", "sw"}, {"krp", "pw"}, {"arp", "krp", "sw", "pw"}}) \cup FamOut({22}, OutWitMasks) \cup FamCounts \cup FamLock
                 \cup { tx \in FamWit : \E i \in 1..2 : tx.ins[i].wit.arp.len = 0 /\ tx.ins[i].wit.krp.len = 0 } \cup FamWide
-           ELSE FamIn({0, 1, 253}, InWitMasks) \cup FamOut({0, 22, 253}, OutWitMasks) \cup FamWit \cup FamCounts \cup FamWide
+           ELSE FamIn({0, 1, 253}, InWitMasks) \cup FamOut({0, 22, 253}, OutWitMasks) \cup FamWit \cup FamCounts \cup FamLock \cup FamWide
 
 BaseCase(tx) ==
   [tx |-> tx, toks |-> EncTx(tx), txidpre |-> TxidPre(tx), haswit |-> HasWitness(tx),
